@@ -273,3 +273,101 @@ func TestRegressBackwardsStoresMalformedBlock(t *testing.T) {
 		}
 	}
 }
+
+// Sequential mode. The primary supplies the target (an equivocation signed by the real validators, which the detector
+// exists for), then answers an intermediate height with a benign error. The client promotes its only witness - honest,
+// holding and able to prove the real header - to primary and appends the old primary to the witness list, keeps the
+// target it already has, verifies it (it is properly signed) and cross-checks it against the witnesses, i.e. against
+// the very provider that supplied it. The honest provider is never asked about the target.
+func TestRegressDemotedPrimaryConfirmsOwnHeader(t *testing.T) {
+	w := fixedWorld(t, 5)
+	defer w.c.Close()
+	ep := newEpisode()
+	defer ep.close()
+	gv := func(h int64) *types.LightBlock { return w.g[h] }
+	all := []int{0, 1, 2, 3}
+	pf := forkSpec{j: 4, m: 4, genuineFirst: true, fv: lib.NewValSet(all, []int64{1, 1, 1, 1}), signers: all, timeMode: "genuine", salt: "regress-demoted"}
+	pb, _ := overlay(w.g, w.build(pf, gv))
+	primary := w.newNode(ep, "primary:fork", pb, w.L)
+	primary.errAt[2] = provider.ErrNoResponse
+	hb, _ := overlay(w.g, nil)
+	honest := w.newNode(ep, "honest", hb, w.L)
+
+	first := func(pend []*req) int { return 0 }
+	st := dbs.New(dbm.NewMemDB(), w.chainID)
+	var cl *light.Client
+	var err error
+	now := w.T(w.L).Add(time.Second)
+	ep.run(func() {
+		cl, err = light.NewClient(ep.ctx, w.chainID, light.TrustOptions{Period: time.Hour, Height: 1, Hash: w.g[1].Hash()},
+			primary, []provider.Provider{honest}, st, light.SequentialVerification(), light.MaxClockDrift(time.Millisecond), light.MaxBlockLag(0))
+	}, first)
+	if err != nil {
+		t.Fatalf("NewClient: %v", err)
+	}
+	ep.mu.Lock()
+	ep.call = 1
+	ep.mu.Unlock()
+	ep.run(func() { _, err = cl.VerifyLightBlockAtHeight(ep.ctx, 4, now) }, first)
+	if lb, _ := st.LightBlock(4); lb != nil && hkey(lb) != hkey(w.g[4]) {
+		others := 0
+		for _, rec := range ep.log {
+			if rec.call == 1 && rec.prov != primary.id && rec.lb != nil && hkey(rec.lb) == hkey(lb) {
+				others++
+			}
+		}
+		t.Fatalf("the equivocated header 4/%X is trusted (err=%v); providers other than its source that returned it: %d; the honest provider holds %X and was never asked for height 4\n%s",
+			lb.Hash(), err, others, w.g[4].Hash(), dumpRecs(ep.log))
+	}
+}
+
+// A client that never prunes (light.PruningSize(0): "will not prune the light client at all") can hold more than
+// 65535 light blocks. The store counted them in a uint16: the counter wrapped, and Cleanup() = Prune(0) - how the client
+// repudiates its whole stored history when the trust options contradict it - deleted nothing (or only the lowest
+// size mod 65536 blocks). The repudiated headers stayed in the trusted store.
+func TestRegressStoreCounterBeyond65535(t *testing.T) {
+	w := fixedWorld(t, 2)
+	defer w.c.Close()
+	db := dbm.NewMemDB()
+	st := dbs.New(db, w.chainID)
+	const n = 65536 + 3
+	for h := int64(1); h <= n; h++ {
+		hd := *w.g[1].Header
+		hd.Height = h
+		lb := &types.LightBlock{SignedHeader: &types.SignedHeader{Header: &hd, Commit: w.g[1].Commit}, ValidatorSet: w.g[1].ValidatorSet}
+		if err := st.SaveLightBlock(lb); err != nil {
+			t.Fatalf("save %d: %v", h, err)
+		}
+	}
+	count := func(s interface {
+		FirstLightBlockHeight() (int64, error)
+		LastLightBlockHeight() (int64, error)
+	}) (int64, int64) {
+		f, _ := s.FirstLightBlockHeight()
+		l, _ := s.LastLightBlockHeight()
+		return f, l
+	}
+	// restart, keep the 10 highest
+	st = dbs.New(db, w.chainID)
+	if err := st.Prune(10); err != nil {
+		t.Fatalf("Prune(10): %v", err)
+	}
+	if f, l := count(st); f != n-9 || l != n {
+		t.Fatalf("Prune(10) of a store with %d light blocks left heights %d..%d, want %d..%d", n, f, l, n-9, n)
+	}
+	// refill, restart, wipe (Client.Cleanup)
+	for h := int64(1); h <= n-10; h++ {
+		hd := *w.g[1].Header
+		hd.Height = h
+		if err := st.SaveLightBlock(&types.LightBlock{SignedHeader: &types.SignedHeader{Header: &hd, Commit: w.g[1].Commit}, ValidatorSet: w.g[1].ValidatorSet}); err != nil {
+			t.Fatalf("save %d: %v", h, err)
+		}
+	}
+	st = dbs.New(db, w.chainID)
+	if err := st.Prune(0); err != nil {
+		t.Fatalf("Prune(0): %v", err)
+	}
+	if f, l := count(st); f != -1 || l != -1 {
+		t.Fatalf("Prune(0) (= Client.Cleanup) of a store with %d light blocks left heights %d..%d behind: the repudiated history is still served as trusted", n, f, l)
+	}
+}
